@@ -405,7 +405,7 @@ func init() {
 	hx.Register(&hx.Prop{
 		ID:          "C11",
 		Workers:     func(string) int { return 16 },
-		BudgetQuick: 150 * time.Second,
+		BudgetQuick: 300 * time.Second,
 		BudgetThor:  25 * time.Minute,
 		Kind:        "schedules",
 		Rule: "12 rule behaviours (no return, bare return, return of int/string/injected pointer, return nested in if/for/forRange, return after a failing statement, top-level and nested `return <failing expr>`, data-dependent return-or-fail) -> all 1728 triples x all 21 engine models (x policy, two DAG shapes) [quick: every third], " +
